@@ -41,8 +41,15 @@ pub(crate) fn run() -> Result<(), Error> {
     }
     let cwd = env::current_dir()?;
     let want = redo::abs_path(&cwd, Path::new(&want));
-    for df in redo::possible_do_files(want) {
+    // The same name the builder looks rules up for: the physical one
+    // (symbolic links in the directory part resolved), not the spelling.
+    let want = Path::new("/").join(redo::relpath(&want, Path::new("/"))?);
+    for df in redo::possible_do_files(&want) {
         let do_path = df.do_dir().join(df.do_file());
+        if do_path == want {
+            // a target named like a rule is not its own build script
+            continue;
+        }
         let relpath = redo::relpath(&do_path, &cwd)?;
         let relpath_str = relpath.as_os_str().to_str().unwrap();
         assert!(!relpath_str.contains('\n'));
